@@ -17,6 +17,7 @@ package log
 
 import (
 	"fmt"
+	stdlog "log"
 	"net"
 	"net/http"
 
@@ -51,7 +52,7 @@ func (l Logger) ServeHTTP(w http.ResponseWriter, r *http.Request) (int, error) {
 			preURL := *r.URL
 
 			// Bon voyage, request!
-			status, err := l.Next.ServeHTTP(responseRecorder, r)
+			status, err := l.serveNext(responseRecorder, r)
 
 			if status >= 400 {
 				// There was an error up the chain, but no response has been written yet.
@@ -90,6 +91,20 @@ func (l Logger) ServeHTTP(w http.ResponseWriter, r *http.Request) (int, error) {
 			return status, err
 		}
 	}
+	return l.Next.ServeHTTP(w, r)
+}
+
+// serveNext calls the next handler. If that handler panics, the client
+// is answered with 500 Internal Server Error: the panic is reported and
+// turned into that status here, so that the error response is written
+// through the recorder and the request is logged like any other.
+func (l Logger) serveNext(w http.ResponseWriter, r *http.Request) (status int, err error) {
+	defer func() {
+		if rec := recover(); rec != nil {
+			stdlog.Printf("[PANIC] %v", rec)
+			status, err = http.StatusInternalServerError, fmt.Errorf("panic: %v", rec)
+		}
+	}()
 	return l.Next.ServeHTTP(w, r)
 }
 
